@@ -167,7 +167,7 @@ def generate(seed, tier, batch):
         meas = gen_meas(r, n, ["hom", "het"], max_meas=2)
         for m in meas:
             m["select"] = True
-        return {"kind": "xsel", "hbar": hbar, "n": n, "prep": prep, "meas": meas, "tape": seed}
+        return {"kind": "xsel", "hbar": hbar, "n": n, "prep": prep, "meas": meas, "tape": seed, "share_program": r.random() < 0.8, "rerun": r.random() < 0.5}
     if batch == "fock-count":
         return gen_fock(r, seed, hbar, "count")
     if batch == "fock-hom":
@@ -616,7 +616,7 @@ def build_meas_ops(script, results_so_far=None):
     return ops
 
 
-def run_dyne(script, w, backend, collect=None):
+def run_dyne(script, w, backend, collect=None, shared_prog=None):
     import strawberryfields as sf
 
     sf.hbar = script["hbar"]
@@ -634,9 +634,9 @@ def run_dyne(script, w, backend, collect=None):
     prog_spec = {"n": script["n"], "ops": script["prep"] + build_meas_ops(script)}
     with simenv:
         simenv.rng.handler = handler
-        prog = build_program(prog_spec)
+        prog = shared_prog if shared_prog is not None else build_program(prog_spec)
         eng = simenv.engine(backend)
-        w.step("run", backend=backend)
+        w.step("run", backend=backend, shared_program=shared_prog is not None)
         try:
             res = eng.run(prog)
         except Violation:
@@ -776,9 +776,16 @@ def exec_xsel(script, w):
     import strawberryfields as sf
 
     out = {}
-    for be in ("gaussian", "bosonic"):
-        res, oracle, _ = run_dyne(script, w, be)
+    # one Program object for all executions (the ordinary way to compare backends): gaussian, bosonic, and - per script - gaussian again;
+    # the operation objects (with their select values) are shared by all of them
+    sf.hbar = script["hbar"]
+    shared = build_program({"n": script["n"], "ops": script["prep"] + build_meas_ops(script)}) if script.get("share_program", True) else None
+    order = ["gaussian", "bosonic"] + (["gaussian"] if script.get("rerun") else [])
+    for i, be in enumerate(order):
+        res, oracle, _ = run_dyne(script, w, be, shared_prog=shared)
         if w.violations:
+            if i > 0:
+                w.violations[-1]["detail"] = {"execution_no": i + 1, "of_same_program_object": shared is not None, "info": w.violations[-1]["detail"]}
             return
         if res is None:
             return
